@@ -42,7 +42,13 @@ func (g *gen) correlated() *vcase {
 		var c *vcase
 		a := g.bigInt()
 		t := new(big.Int).Add(edgeTargets[g.r.Intn(len(edgeTargets))], g.delta())
-		switch g.r.Intn(16) {
+		switch g.r.Intn(19) {
+		case 16: // shared integer: x DUP op must not change the other copy
+			c = g.aliasInt()
+		case 17: // comparisons with Null operands
+			c = g.nullCompare()
+		case 18: // conditional jumps on typed operands, short and long forms
+			c = g.jumpCase()
 		case 0: // a + b = t
 			c = g.intsCase("arith", opcode.ADD, a, new(big.Int).Sub(t, a))
 		case 1: // a - b = t
@@ -473,3 +479,87 @@ func describe(c *vcase) string {
 // genGas: gas limit of generated programs (a loop ends after ~20 000 cheap instructions);
 // the corpus keeps 2^20 for the cases that need depth (1024 nested calls).
 const genGas = 40000
+
+// aliasInt: an integer (or byte string) is duplicated, one copy goes through an instruction, both
+// copies stay observable: an instruction must never modify its operand in place.
+func (g *gen) aliasInt() *vcase {
+	c := &vcase{gas: -1, priced: true, family: "alias"}
+	a := newAsm()
+	v := iarg(g.bigInt())
+	if g.r.Intn(5) == 0 {
+		v = arg{kind: 's', bs: g.byteString(false)}
+	}
+	if g.r.Bool() {
+		c.args = append(c.args, v)
+	} else {
+		g.emitPrim(a, v)
+	}
+	a.op(opcode.DUP)
+	un := []opcode.Opcode{opcode.INC, opcode.DEC, opcode.NEGATE, opcode.ABS, opcode.INVERT, opcode.SIGN, opcode.SQRT, opcode.NOT, opcode.NZ, opcode.SIZE}
+	bin := []opcode.Opcode{opcode.ADD, opcode.SUB, opcode.MUL, opcode.DIV, opcode.MOD, opcode.AND, opcode.OR, opcode.XOR, opcode.SHL, opcode.SHR, opcode.MIN, opcode.MAX, opcode.POW, opcode.CAT, opcode.EQUAL, opcode.NUMEQUAL}
+	switch g.r.Intn(5) {
+	case 0:
+		a.op(un[g.r.Intn(len(un))])
+	case 1:
+		a.convert([]byte{tBytes, tBuffer, tInt, tBool}[g.r.Intn(4)])
+	case 2: // x DUP x op : both operands are the same object
+		a.op(opcode.DUP, bin[g.r.Intn(len(bin))])
+	default:
+		g.emitPrim(a, iarg(g.smallInt()))
+		if g.r.Bool() {
+			a.op(opcode.SWAP)
+		}
+		a.op(bin[g.r.Intn(len(bin))])
+	}
+	c.script, _ = a.bytes()
+	return c
+}
+
+func (g *gen) nullCompare() *vcase {
+	c := &vcase{gas: -1, priced: true, family: "compare"}
+	a := newAsm()
+	ops := []opcode.Opcode{opcode.LT, opcode.LE, opcode.GT, opcode.GE, opcode.NUMEQUAL, opcode.NUMNOTEQUAL, opcode.MIN, opcode.MAX, opcode.EQUAL, opcode.NOTEQUAL}
+	vals := []arg{{kind: 'n'}, {kind: 'n'}, iarg(g.bigInt()), {kind: 'b', b: g.r.Bool()}, {kind: 's', bs: g.byteString(false)}, {kind: 'f', bs: []byte{1}}}
+	g.emitPrim(a, vals[g.r.Intn(len(vals))])
+	g.emitPrim(a, vals[g.r.Intn(len(vals))])
+	a.op(ops[g.r.Intn(len(ops))])
+	c.script, _ = a.bytes()
+	return c
+}
+
+// jumpCase: <operands> JMPcc L ; PUSH1 ; L: PUSH2   (short and long forms, typed operands)
+func (g *gen) jumpCase() *vcase {
+	c := &vcase{gas: genGas, priced: true, family: "jump"}
+	a := newAsm()
+	short := []opcode.Opcode{opcode.JMP, opcode.JMPIF, opcode.JMPIFNOT, opcode.JMPEQ, opcode.JMPNE, opcode.JMPGT, opcode.JMPGE, opcode.JMPLT, opcode.JMPLE}
+	i := g.r.Intn(len(short))
+	switch {
+	case i == 0:
+	case i <= 2:
+		g.emitPrim(a, g.prim('B'))
+	default:
+		x := g.bigInt()
+		y := new(big.Int).Add(x, g.delta())
+		if g.r.Intn(6) == 0 {
+			g.emitPrim(a, g.prim('i'))
+		} else {
+			g.emitPrim(a, iarg(x))
+		}
+		if !inRange(y) {
+			y = x
+		}
+		g.emitPrim(a, iarg(y))
+	}
+	target := "L"
+	if g.r.Intn(10) == 0 {
+		target = "E" // end of script: the jump itself faults when taken
+	}
+	if g.r.Bool() {
+		a.jmp(short[i], target)
+	} else {
+		a.jmpL(opcode.Opcode(int(short[i])+1), target)
+	}
+	a.op(opcode.PUSH1).label("L").op(opcode.PUSH2).label("E")
+	c.script, _ = a.bytes()
+	return c
+}
